@@ -434,6 +434,24 @@ class PTable(EngineBase):
                         e["op_id"] += shift
                 ops[at:at] = seq
                 world["overlap"] = True
+        if prop == "C05" and rng.random() < 0.08:
+            # targeted shape: the PID named by ppid() changes hands while
+            # parent() / parents() build and examine the handle for it
+            pidset = {p["pid"] for p in world["procs"]}
+            cands = [p for p in world["procs"] if p["ppid"] in pidset and
+                     p["ppid"] > 1 and p["ppid"] != p["pid"]]
+            if cands:
+                c = rng.choice(cands)
+                pre = [{"op": "new", "slot": world["pool"].index(c["pid"])},
+                       {"op": rng.choice(["parent", "parent", "parents"]),
+                        "h": 0}]
+                for e in inside:
+                    e["op_id"] += len(pre)
+                ops[0:0] = pre
+                ev = self.new_proc_ev(rng, c["ppid"], world["pool"], "reuse")
+                ev.pop("as_zombie", None)
+                inside.append({"op_id": 1, "n": rng.randrange(1, 12),
+                               "ev": ev})
         if prop == "C01" and rng.random() < 0.06:
             # the program holds a handle on itself, fork()s and goes on in
             # the child - which may even receive a recycled PID some handle
@@ -1593,6 +1611,33 @@ class PTable(EngineBase):
             if not moving and out[1] != me[4]:
                 self._V(st, "C05.ppid", tags, api, "ppid() -> %r, kernel "
                         "says %r" % (out[1], me[4]))
+        elif kind == "parent" and moving:
+            # the table moved during the call: whatever is returned, a handle
+            # that *is* the current owner of its PID (equal to a fresh
+            # Process(pid)) must not name a process younger than the caller
+            probe("parent_moving")
+            par = out[1]
+            cur = post.get(par.pid) if par is not None else None
+            mine = post.get(h.pid)
+            if cur is not None and mine is not None and mine[0] == h.inc \
+                    and not st["steps"] and cur[5] > my_start:
+                from .. import seams as _seams
+                saved = _seams.State.kernel
+                _seams.State.kernel = k.view()
+                try:
+                    try:
+                        same = (par == psutil.Process(par.pid))
+                    except psutil.Error:
+                        same = False
+                finally:
+                    _seams.State.kernel = saved
+                if same:
+                    self._V(st, "C05.parent_sound", tags + [
+                        "live_handle_younger_than_caller"], api,
+                        "parent() of pid %d (start %r) returned a handle "
+                        "that stands for the current owner of pid %d, which "
+                        "started at %r: after the caller" % (
+                            h.pid, my_start, par.pid, cur[5]))
         elif kind == "parent" and not moving:
             want = self._ref_parent(pre, h.pid)
             got = out[1].pid if out[1] is not None else None
@@ -1769,7 +1814,7 @@ PTable.PROBES_BY_PROP = {
             "flagged_recycled_by_is_running", "iter_after_cache_clear",
             "ev_in_vanish", "ev_in_reuse"],
     "C05": ["tree_query_on_recycled_caller", "cycle_in_ppid_map",
-            "children_moving", "children_exact_ok"],
+            "children_moving", "children_exact_ok", "parent_moving"],
 }
 
 ENGINE = PTable()
